@@ -2,7 +2,7 @@ import Driver.Stor
 
 /-! Driver for domain C02 (crash images of write histories): see `Driver/Stor.lean`. -/
 namespace Driver.C02
-open Hv.Storage Driver.Stor
+open Hv.BlockStore Driver.BStor
 
 /-- Spec check on the model's own prediction for a crash image: the recovered entries are a
     prefix of what was written and contain everything that was durable; the append after the
